@@ -158,7 +158,7 @@ theorem goodEC_iterateLoop (P : Prog) {sub : Eng} (hs : EngGoodE sub) (c : Nat) 
                                 (.iterate c (IterationStamp.iteration it'))) :=
                               E_emit (E_popQuery (hs3 heads)) _
                                 (fun q k hq => by cases hq; exact incr_le hit)
-                            exact E_of_same (E_foldl_setIter h5 _ _) (by simp)
+                            exact E_of_same (E_foldl_setIter h5 ((live heads).filter (fun h => h.key != c)) it') rfl
       | true =>
         simp only [if_true, Bool.true_or, Bool.true_and]
         split
@@ -199,7 +199,7 @@ theorem goodEC_iterateLoop (P : Prog) {sub : Eng} (hs : EngGoodE sub) (c : Nat) 
                                 (.iterate c (IterationStamp.iteration it'))) :=
                               E_emit (E_popQuery (hs3 heads)) _
                                 (fun q k hq => by cases hq; exact incr_le hit)
-                            exact E_of_same (E_foldl_setIter h5 _ _) (by simp)
+                            exact E_of_same (E_foldl_setIter h5 ((live heads).filter (fun h => h.key != c)) it') rfl
 
 theorem goodEC_executeMaybeIterate (P : Prog) {sub : Eng} (hs : EngGoodE sub) (c : Nat)
     (old : Option Memo) {s : St} (h : EvOK s) : GoodEC (executeMaybeIterate P sub c old s) := by
